@@ -119,6 +119,9 @@ func (g *Gen) Leaf() Ty {
 		}
 		return Pat(srcs...)
 	case 17:
+		if g.p(40) {
+			return g.runtime()
+		}
 		return Rx(g.pickS(rxPool))
 	case 18:
 		lo, hi := g.Size()
@@ -155,6 +158,19 @@ func (g *Gen) tstamp() Ty {
 		return Tstamp(tsvPool[i][0], tsvPool[i][1], TsMaxSec, TsMaxNs)
 	}
 	return Tstamp(tsvPool[i][0], tsvPool[i][1], tsvPool[j][0], tsvPool[j][1])
+}
+
+// runtime: a Runtime type without a Go type.  (Runtime['go', name] cannot be built without one: the name stays empty for 'go'.)
+func (g *Gen) runtime() Ty {
+	rt := g.pickS([]string{"", "ruby", "ruby", "go", "x"})
+	nm := g.pickS([]string{"", "a", "a", "B"})
+	if rt == "go" {
+		nm = ""
+	}
+	if g.p(35) {
+		return Runtime(rt, nm, g.pickS(rxPool))
+	}
+	return Runtime(rt, nm)
 }
 
 func (g *Gen) tsv() Val { z := tsvPool[g.n(len(tsvPool))]; return VTsv(z[0], z[1]) }
